@@ -362,7 +362,8 @@ def lens_spec(draw, profile='paraxial', min_surfs=1, max_surfs=None, force_infin
             lastm = surfs[j]['mat'] if j >= 0 else (dict(kind='ideal', n=n0, k=0.0) if n0 != 1.0 else AIR)
         img = dict(mat=dict(lastm))
     nw = draw(st.integers(1, 4))
-    wls = [round(draw(f(0.45, 0.70)), 6) for _ in range(nw)]
+    wls = list(dict.fromkeys(round(draw(f(0.45, 0.70)), 6) for _ in range(nw)))      # distinct wavelengths
+    nw = len(wls)
     prim = draw(st.integers(0, nw - 1))
     # fields
     nf = draw(st.integers(1, 4))
